@@ -195,8 +195,8 @@ def run_case(ctx, case):
         if not same:
             rec.violation("'%s' on exact data is not the mathematically exact result" % name, case, observed=ser(cx[name]), expected=ser(want[name]))
             return
-    if c.get("label") == "big":
-        return
+    if c.get("label") in ("big", "highdeg"):
+        return          # exact half only (high degrees: the float solves are not in the well-conditioned class)
     for rep, npf in (("float", False), ("npfloat", True)):
         r = impl(lambda: pipeline(float, U, P, W, args, npf))
         if r[0] != "ok":
@@ -283,11 +283,17 @@ def wellcond_kv(rng, p, nint, interval):
 
 def run(ctx):
     rng = ctx["rng"]
-    for i in range(budget(ctx, 30, 400)):
-        label = ["fraction", "int", "dyadic", "big", "int", "fraction"][i % 6]
+    nmain = budget(ctx, 30, 400)
+    nhigh = budget(ctx, 5, 40)
+    for i in range(nmain + nhigh):
+        label = ["fraction", "int", "dyadic", "big", "int", "fraction"][i % 6] if i < nmain else "highdeg"
         interval = rng.choice([(F(0), F(1)), (F(-1), F(2)), (F(1, 3), F(7, 3))])
         p = rng.randint(1, 3)
         U = wellcond_kv(rng, p, rng.randint(0, 2), interval)
+        if label == "highdeg":
+            # degrees whose least-squares / quadrature rules have 8 and more nodes (exact arithmetic far beyond the tabulated sizes)
+            p = [4, 5, 7, 4, 8][(i - nmain) % 5]
+            U = wellcond_kv(rng, p, 1 if p <= 5 else 0, interval)
         if label == "dyadic":
             # knots that are exactly representable as floats: the float and the exact run see numerically equal knot vectors
             interval = (F(0), F(1))
@@ -299,6 +305,9 @@ def run(ctx):
             W = [F(rng.randint(1, 5)) for _ in range(n)] if i % 2 == 1 else None     # python-int weights every other int case
         elif label == "big":
             P = rand_points(rng, n, dim, big=True)
+            W = None
+        elif label == "highdeg":
+            P = rand_points(rng, n, 1)
             W = None
         else:
             P = rand_points(rng, n, dim if label != "dyadic" else 1)
